@@ -655,7 +655,7 @@ func finalChecks(w *world) string {
 }
 
 func lockstep(w *world, rng *mon.RNG) string {
-	keys := []string{"k0", "k1", "k2"}
+	keys := []string{"k0", "k1", ""}
 	nsub := rng.Range(1, 3)
 	for i := 0; i < nsub; i++ {
 		w.step("subscribe")
